@@ -217,6 +217,19 @@ impl Table for Pptt {
             ops.push(Op::new(P_PROC, proc_shape(1, 1 + 7, 7, 0x0a), 1));
             v.push((format!("processor[{} resources]", n), ops));
         }
+        // enough 252-byte nodes (262..270 of them) for the nodes added afterwards to start beyond 64 KiB, then a cache whose
+        // next level and a processor whose parent and resources are the LATEST nodes: offsets above 65 535 in every reference
+        for count in [262usize, 270] {
+            let mut ops = pre.clone();
+            for _ in 0..count {
+                ops.push(Op { k: P_PROC, shape: proc_shape(0, 1, 0, 0x1f), fill: Fill::b(2).with(crate::fill::SZ, 58) });
+            }
+            ops.push(Op::new(P_CACHE, cache_shape(0xff, 1), 2));
+            ops.push(Op::new(P_CACHE, cache_shape(0xff, 1 + 7), 1));
+            ops.push(Op::new(P_PROC, proc_shape(1, 1 + 7, 7, 0x0a), 1));
+            ops.push(Op::new(P_PROC, proc_shape(1, 1 + 7, 7, 0x1f), 2));
+            v.push((format!("{} large processors then nodes beyond 64 KiB referring to each other", count), ops));
+        }
         // a parent handle issued by another table (offset 936, beyond this table's end), first and between other nodes
         v.push(("foreign parent first".into(), vec![Op::new(P_PROC, proc_shape(0, 15, 0, 0x1f), 2), Op::new(P_CACHE, cache_shape(0xff, 0), 2), Op::new(P_PROC, proc_shape(1, 1, 7, 0), 1)]));
         v.push(("foreign parent later".into(), vec![Op::new(P_CACHE, cache_shape(0xff, 0), 2), Op::new(P_PROC, proc_shape(1, 0, 0, 0x1f), 2), Op::new(P_PROC, proc_shape(1, 15, 0, 0x0a), 1), Op::new(P_PROC, proc_shape(0, 1 + 7, 0, 0), 2), Op::new(P_CACHE, cache_shape(0xff, 1), 2)]));
@@ -590,6 +603,11 @@ impl Table for Rhct {
         for n in 0..=300u64 {
             v.push((format!("isa[len {}]", n), tail_of(n, 0)));
         }
+        // one node so large that every node after it starts beyond 64 KiB: the handles issued then, and the offset fields
+        // that store them, need more than 16 bits
+        for n in [65_400u64, 65_470, 65_480, 65_500, 65_510] {
+            v.push((format!("isa[len {}] then nodes beyond 64 KiB", n), tail_of(n, 0)));
+        }
         for t in 1..16u64 {
             for n in [0u64, 1, 4, 5, 6, 7, 28, 29, 245, 246] {
                 v.push((format!("isa[len {} tail {}]", n, t), tail_of(n, t)));
@@ -886,6 +904,14 @@ impl Table for Rimt {
         for n in 0..=20u64 {
             let x = Op { k: I_RC, shape: map_shape(0, true, if n % 2 == 0 { 0 } else { 7 }, 0), fill: Fill::b(2).with(SZ, n) };
             v.push((format!("root-complex[{} mappings]", n), vec![io, io, x, io, rc]));
+        }
+        // devices so large (two of ~1 640 mappings of 20 bytes each) that the IOMMU added after them lies beyond 64 KiB, then
+        // devices whose mappings refer to THAT IOMMU (selector 7 = the latest): its offset needs more than 16 bits
+        // (one device cannot do it alone: its own length field has 16 bits)
+        for n in [1_636u64, 1_637, 1_638, 1_640, 1_700, 3_000] {
+            let x = Op { k: I_RC, shape: map_shape(0, true, 0, 0), fill: Fill::b(2).with(SZ, n) };
+            let y = Op { k: I_RC, shape: map_shape(0, true, 0, 0), fill: Fill::b(3).with(SZ, 1_640) };
+            v.push((format!("root complexes of {} and 1640 mappings, then an iommu beyond 64 KiB and references to it", n), vec![io, x, y, io, rc, Op::new(I_PLAT, map_shape(2, true, 7, 0), 2), io, rc]));
         }
         // id mappings that continue each other (source and destination ranges adjacent, equal flags) but go to DIFFERENT
         // IOMMUs, and the same going to one IOMMU: a list is emitted entry by entry, never merged
